@@ -4,4 +4,4 @@ From Coq Require Import ExtrOcamlBasic.
 Extraction "../build/extract/bits_model.ml" types_witness
   ctor_default ctor_val apply_op query count nwords
   mt_default_seed mt_seed mt_next mt_outputs pcg_seed pcg_next pcg_bounded pcg_threshold
-  insertion_sort isort_idx arr_index arr_front arr_back arr_iter arr_concat.
+  insertion_sort isort_idx arr_index arr_front arr_back arr_iter arr_concat arr_eqb arr_neb.
